@@ -34,7 +34,7 @@ def _seed_rows():
         conf = open(d + 'confirm.txt').read() if os.path.exists(d + 'confirm.txt') else ''
         rc = open(d + 'recheck.txt').read() if os.path.exists(d + 'recheck.txt') else conf
         first = 'detected' if re.search(r'=> DETECTED', conf) else ('missed' if conf else 'n/a')
-        det = 'DETECTED' in rc.split('\n')[0] if rc else False
+        det = ('DETECTED' in rc.split('\n')[0]) if os.path.exists(d + 'recheck.txt') else bool(re.search(r'=> DETECTED', conf))
         keys = []
         for k in re.findall(r'key=(\S+)', rc):
             if k not in keys: keys.append(k)
@@ -51,7 +51,7 @@ def block_seeds():
         k = (int(r['name'].split('-')[1]) + 1) // 2
         a = rounds.setdefault(k, [0, 0]); a[0] += 1; a[1] += r['first'] == 'detected'
     out = ['%d changes kept (%d properties, up to five rounds of two per property); **%d are reported by the current checks** (last re-check), %d were reported by the check as it stood when the change arrived. '
-           'First-attempt detection per round: %s. Full text of every change, what it needs to manifest and the widening it led to: `seeded/SUMMARY.md`, `seeded/<id>/`.' % (
+           'First-attempt detection per round: %s (for rounds 1-2 some confirmations were repeated after the check had been widened, so those two figures overstate the first attempt; each `meta.json` history says what happened). Full text of every change, what it needs to manifest and the widening it led to: `seeded/SUMMARY.md`, `seeded/<id>/`.' % (
                n, len({r['name'].split('-')[0] for r in rows}), nd, nf, ', '.join('round %d: %d/%d' % (k, v[1], v[0]) for k, v in sorted(rounds.items()))), '',
            '| seed | change (shortened) | first attempt | reported now by | first finding key |', '|---|---|---|---|---|']
     for r in rows:
